@@ -57,6 +57,16 @@ CHECKS.update({
    note="Stub kernel/proposal/model; all three namespaces; float32 steps whose log-weights exceed float32 resolution are skipped and counted."),
 })
 
+
+CHECKS.update({
+ "C16": dict(level="exploration", engine="operation-engine", ref="DESIGN.md section 4 C16", technique="deterministic simulation, operation engine: seeded Hypothesis stateful machine over sample-set operations checked step by step against a plain-array reference model (pickle hop = checkpoint wire format)",
+   text="Seeded operation sequences (select by slice/mask/index array, partition+concatenate, pickle, to_dict/from_dict flat/nested; results re-enter the pool so operations compose) over all three sample classes x namespaces x dtypes x field subsets, each result compared field by field with a dict-of-numpy-arrays model; Hypothesis shrinks failures and the recorded op list is the replay file. Reference-model half of the technique with an empty fault space (stated).",
+   note="Integer indexing is not generated; after concatenate only rows and weights are compared (no more than the statement promises)."),
+ "C19": dict(level="fault_enumeration", engine="operation-engine", ref="DESIGN.md section 4 C19", technique="deterministic simulation with fault injection, operation engine: seeded Hypothesis stateful machine over nested context managers with an exception injected at every body position, user-model errors and FakePool.map failures; identity oracle at every exit",
+   text="Nestings of enable_pool and auto_checkpoint to depth 4 on a plain or resume_from_file-primed instance, bodies with sampling calls, and an exception at each body position / inside the likelihood / inside pool.map, propagated through every enclosing context like a real with-statement; at each exit the callables must be the identical objects as on entry of that level, defaults equal or absent as on entry, close/join exactly once iff close_pool, exception unchanged. All (context kind x exit path x depth<=4 x primed) combinations are reached in the quick tier.",
+   note="FakePool instead of multiprocessing.Pool; pool=None not generated."),
+})
+
 NOT_APPLICABLE = [
   {"property_id": "C02", "reason": "pure function of one array triple (weights/evidence/ESS formulas): no schedule, storage, randomness, interruption or second party for a simulator to control; see DESIGN.md section 5"},
   {"property_id": "C04", "reason": "pure mathematical map per transform configuration, quantified over inputs only: nothing a crash, seed or operation order can decide; see DESIGN.md section 5"},
